@@ -160,8 +160,8 @@ def thread_cases(tier):
     the write lock at every sync point (also of a compressed send: compress, flush, the chunks of sendall), after it: whatever the
     interleaving, the socket is closed once both threads are done.  (harness/sched.py, loop program `ab`; compared with the thread
     model - loop call `.abandon` - and judged by the oracle.)  `abandon-window`: the sender gets the lock right after the loop has shut the
-    socket down and before `_sock = None` / `closed = True` are stored: its sendall fails on the closed socket (TransportFail); the thread
-    model has no failing write on a shut socket, so these few runs are judged by the oracle alone and counted."""
+    socket down and before `_sock = None` / `closed = True` are stored: its sendall fails on the closed socket (TransportFail), in the
+    thread model as well (`failWrite` on `sockShut`): compared with the model like all other runs, and counted."""
     import props.c11 as c11
     out = []
     shapes = [(0, ['st0']), (1, ['st1']), (2, ['sb1']), (1, ['sb1', 'st0']), (0, ['pi']), (0, ['cl'])]
@@ -184,7 +184,7 @@ def explore_threads(res, tier, model_ok=True):
     import thrutil
     cases = thread_cases(tier)
     reals = runner.parallel_map('thrutil', 'real_case', cases, chunk=20)
-    todo = [(c, r) for c, r in zip(cases, reals) if '__crash__' not in r and not thrutil.dead_writes(r)]
+    todo = [(c, r) for c, r in zip(cases, reals) if '__crash__' not in r]
     lines = [thrutil.model_line(c, r['steps']) for c, r in todo]
     models = dict(zip((id(r) for _, r in todo), runner.model_run(lines) if (model_ok and lines) else [None] * len(lines)))
     mlines = dict(zip((id(r) for _, r in todo), lines))
@@ -200,8 +200,14 @@ def explore_threads(res, tier, model_ok=True):
             res.diffs.append(dict(input=c, real=' '.join('%d:%s' % x for x in r['steps'])[-1200:], model='(harness) ' + '; '.join(r['problems'])[:800]))
         m = models.get(id(r))
         if thrutil.dead_writes(r):
-            res.count('oracle_only_write_attempted_on_socket_already_shut_by_the_loop (model gap: no failing write on a shut socket)')
-        elif m is not None:
+            res.count('model_compared_write_attempted_on_socket_already_shut_by_the_loop' if m is not None
+                      else 'NOT_model_compared_write_attempted_on_socket_already_shut_by_the_loop')
+            for t, i in sorted(thrutil.dead_writes(r)):
+                got = r['results'].get(t, [])
+                if i < len(got) and got[i] == 'ok' and not c['progs'][t][i].startswith('cl='):
+                    res.failures.append(dict(cls='swallowed-transport-fail', what='call %d of thread %d was attempted on the socket the loop had shut down and returned ok' % (i, t),
+                                             input=dict(threads=c), observed=repr(r['results'])))
+        if m is not None:
             res.traces_validated += 1
             res.count('abandon_compared_with_thread_model')
             real_line = thrutil.canon_real(c, r)
